@@ -453,8 +453,10 @@ def checkBufferSharing (m : Model) (res : List (String × CReq)) : PyM Unit := d
       -- repair D31: a constant read by one op may have a second reader, the graph output: one copy of the data, one storage format
       match m.buffers[e.1]? with
       | some (some _) =>
-        let p ← (match Py.dictGet? res only with | some r => pure r | none => throw PyErr.keyError)
-        if !(← compatReq p p) then throw .runtimeError
+        -- an operand the algorithm ignores (e.g. a shape operand under float casting) has no request
+        match Py.dictGet? res only with
+        | some p => if !(← compatReq p p) then throw .runtimeError
+        | none => pure ()
       | _ => pure ()
     | first :: rest =>
       match m.buffers[e.1]? with
@@ -475,10 +477,12 @@ def checkBufferSharing (m : Model) (res : List (String × CReq)) : PyM Unit := d
         match m.buffers[t.buffer]? with
         | some (some _) =>
           for n in (Py.dictGet? b2t t.buffer).getD [] do
-            let sp ← (match Py.dictGet? res n with | some r => pure r | none => throw PyErr.keyError)
-            if (sp.consumers.getD []).any (fun c => match c.xfs.head? with
-                | some x => x == .quantTensor || x == .addDequant
-                | none => false) then throw .runtimeError
+            match Py.dictGet? res n with
+            | none => pure ()     -- an operand the algorithm ignores has no request
+            | some sp =>
+              if (sp.consumers.getD []).any (fun c => match c.xfs.head? with
+                  | some x => x == .quantTensor || x == .addDequant
+                  | none => false) then throw .runtimeError
         | _ => pure ()
 
 /-- `ParamsGenerator.generate_quantization_parameters`; `qsvs = none` models `None`.
